@@ -4,7 +4,12 @@ package main
 // name given to standard input) -> coq/Gen/GenC06.v
 
 import (
+	"fmt"
 	"go/ast"
+	"os"
+	"path/filepath"
+	"sort"
+	"strings"
 )
 
 func init() {
@@ -35,6 +40,123 @@ func init() {
 			}
 		}
 		g.def("StdinName", "list N", coqBytes(name), relBuild+": source name of standard input")
+		gens = append(gens, g)
+	})
+}
+
+// C06: where inputs are opened and closed in pkg/extractor/batchers -> coq/Gen/GenC06Skel.v.
+// For every function (declaration) that calls openFileToReader: the open sites, the `defer` statements whose
+// call (or deferred function literal) calls a .Close method, and the plain .Close calls, each with its loop
+// depth = number of for/range statements around it inside its innermost enclosing function (literal).
+// Obligation (Props/C06.v): an input is closed when IT has been read - no deferred Close sits inside a loop
+// of its own function (it would run only when the whole loop is over), and every opener closes.
+func init() {
+	generators = append(generators, func() {
+		const dir = "pkg/extractor/batchers"
+		g := newGen("GenC06Skel", "Open / Close sites of the functions of pkg/extractor/batchers that call openFileToReader (C06).")
+		ents, err := os.ReadDir(filepath.Join(repo, dir))
+		if err != nil {
+			fail("%s: %v", dir, err)
+			return
+		}
+		var names []string
+		for _, e := range ents {
+			if !e.IsDir() && strings.HasSuffix(e.Name(), ".go") && !strings.HasSuffix(e.Name(), "_test.go") {
+				names = append(names, e.Name())
+			}
+		}
+		sort.Strings(names)
+		isOpen := func(ce *ast.CallExpr) bool {
+			id, ok := ce.Fun.(*ast.Ident)
+			return ok && id.Name == "openFileToReader"
+		}
+		isClose := func(ce *ast.CallExpr) bool {
+			se, ok := ce.Fun.(*ast.SelectorExpr)
+			return ok && se.Sel.Name == "Close"
+		}
+		containsClose := func(n ast.Node) bool {
+			found := false
+			ast.Inspect(n, func(m ast.Node) bool {
+				if ce, ok := m.(*ast.CallExpr); ok && isClose(ce) {
+					found = true
+				}
+				return true
+			})
+			return found
+		}
+		var opens, deferred, plain []string
+		for _, n := range names {
+			f := parse(dir + "/" + n)
+			if f == nil {
+				continue
+			}
+			for _, d := range f.Decls {
+				fd, ok := d.(*ast.FuncDecl)
+				if !ok || fd.Body == nil {
+					continue
+				}
+				has := false
+				ast.Inspect(fd.Body, func(m ast.Node) bool {
+					if ce, ok := m.(*ast.CallExpr); ok && isOpen(ce) {
+						has = true
+					}
+					return true
+				})
+				if !has {
+					continue
+				}
+				fn := coqStr(n + ": " + fd.Name.Name)
+				var walk func(n ast.Node, loop int)
+				walk = func(n ast.Node, loop int) {
+					if n == nil {
+						return
+					}
+					switch x := n.(type) {
+					case *ast.FuncLit:
+						walk(x.Body, 0)
+						return
+					case *ast.ForStmt:
+						walk(x.Init, loop)
+						walk(x.Cond, loop+1)
+						walk(x.Post, loop+1)
+						walk(x.Body, loop+1)
+						return
+					case *ast.RangeStmt:
+						walk(x.X, loop)
+						walk(x.Body, loop+1)
+						return
+					case *ast.DeferStmt:
+						if containsClose(x.Call) {
+							deferred = append(deferred, fmt.Sprintf("(%s, %d)", fn, loop))
+						}
+						return
+					case *ast.CallExpr:
+						if isOpen(x) {
+							opens = append(opens, fmt.Sprintf("(%s, %d)", fn, loop))
+						} else if isClose(x) {
+							plain = append(plain, fmt.Sprintf("(%s, %d)", fn, loop))
+						}
+					}
+					first := true
+					ast.Inspect(n, func(m ast.Node) bool {
+						if m == nil {
+							return false
+						}
+						if first {
+							first = false
+							return true
+						}
+						walk(m, loop)
+						return false
+					})
+				}
+				walk(fd.Body, 0)
+			}
+		}
+		lst := func(xs []string) string { return "[" + strings.Join(xs, "; ") + "]" }
+		g.def("open_sites", "list (string * nat)", lst(opens), dir+": calls of openFileToReader (function, loop depth)")
+		g.def("deferred_closes", "list (string * nat)", lst(deferred), dir+": defer statements that call a .Close, in those functions (function, loop depth of the defer statement)")
+		g.def("plain_closes", "list (string * nat)", lst(plain), dir+": .Close calls that are not deferred, in those functions (function, loop depth)")
 		gens = append(gens, g)
 	})
 }
